@@ -65,6 +65,7 @@ package mq
 //@   ensures len(data) >= 2 && len(data) >= 2 + int(specU16(data[0], data[1])) ==> result == nil
 //@   ensures result == nil && specU16(data[0], data[1]) == 0 ==> unchanged(*v)
 //@   ensures result == nil && specU16(data[0], data[1]) != 0 ==> len(*v) == int(specU16(data[0], data[1])) && fresh(*v)
+//@   ensures result == nil && specU16(data[0], data[1]) != 0 ==> len(*v) + 2 <= len(data)         #C05
 
 //@ func (*rawdata).UnmarshalBinary
 //@   assigns *v
@@ -102,6 +103,7 @@ package mq
 //@   inline
 //@   loop 0:
 //@     invariant 0 <= b.i && b.i <= len(b.data)
+//@     invariant $elems - old($elems) <= b.i - old(b.i)                   #C05
 //@     decreases len(b.data) - b.i
 
 //@ func (*fixedHeader).ReadRemaining
@@ -123,48 +125,72 @@ package mq
 
 //@ func (*Connect).UnmarshalBinary
 //@   assigns $heap
+//@   ensures $elems - old($elems) <= len(data)                          #C05
 //@ func (*ConnAck).UnmarshalBinary
 //@   assigns $heap
+//@   ensures $elems - old($elems) <= len(data)                          #C05
 //@ func (*Publish).UnmarshalBinary
 //@   assigns $heap
+//@   ensures $elems - old($elems) <= len(data)                          #C05
 //@ func (*PubAck).UnmarshalBinary
 //@   assigns $heap
+//@   ensures $elems - old($elems) <= len(data)                          #C05
 //@ func (*PubRec).UnmarshalBinary
 //@   assigns $heap
+//@   ensures $elems - old($elems) <= len(data)                          #C05
 //@ func (*PubRel).UnmarshalBinary
 //@   assigns $heap
+//@   ensures $elems - old($elems) <= len(data)                          #C05
 //@ func (*PubComp).UnmarshalBinary
 //@   assigns $heap
+//@   ensures $elems - old($elems) <= len(data)                          #C05
 //@ func (*Subscribe).UnmarshalBinary
 //@   assigns $heap
+//@   ensures $elems - old($elems) <= len(data)                          #C05
 //@   loop 0:
 //@     invariant 0 <= b.i && b.i <= len(data) && b.data == data
+//@     invariant b.err == nil ==> $elems - old($elems) <= b.i            #C05
+//@     invariant $elems - old($elems) <= len(data)                      #C05
 //@     decreases b.err == nil ? 1 + len(data) - b.i : 0
 //@ func (*SubAck).UnmarshalBinary
 //@   assigns $heap
+//@   ensures $elems - old($elems) <= len(data)                          #C05
+//@   ensures len(p.reasonCodes) <= len(data)                            #C05
 //@   loop 0:
 //@     invariant 0 <= b.i && b.i <= len(b.data) && -1 <= rangeindex
+//@     invariant $elems - old($elems) <= len(data) && len(p.reasonCodes) <= len(data)   #C05
 //@     decreases len(p.reasonCodes) - rangeindex
 //@ func (*Unsubscribe).UnmarshalBinary
 //@   assigns $heap
+//@   ensures $elems - old($elems) <= len(data)                          #C05
 //@   loop 0:
 //@     invariant 0 <= b.i && b.i <= len(data) && b.data == data
+//@     invariant b.err == nil ==> $elems - old($elems) <= b.i            #C05
+//@     invariant $elems - old($elems) <= len(data)                      #C05
 //@     decreases b.err == nil ? 1 + len(data) - b.i : 0
 //@ func (*UnsubAck).UnmarshalBinary
 //@   assigns $heap
+//@   ensures $elems - old($elems) <= len(data)                          #C05
+//@   ensures len(p.reasonCodes) <= len(data)                            #C05
 //@   loop 0:
 //@     invariant 0 <= b.i && b.i <= len(b.data) && -1 <= rangeindex
+//@     invariant $elems - old($elems) <= len(data) && len(p.reasonCodes) <= len(data)   #C05
 //@     decreases len(p.reasonCodes) - rangeindex
 //@ func (*PingReq).UnmarshalBinary
 //@   assigns $heap
+//@   ensures $elems - old($elems) <= len(data)                          #C05
 //@ func (*PingResp).UnmarshalBinary
 //@   assigns $heap
+//@   ensures $elems - old($elems) <= len(data)                          #C05
 //@ func (*Disconnect).UnmarshalBinary
 //@   assigns $heap
+//@   ensures $elems - old($elems) <= len(data)                          #C05
 //@ func (*Auth).UnmarshalBinary
 //@   assigns $heap
+//@   ensures $elems - old($elems) <= len(data)                          #C05
 //@ func (*Undefined).UnmarshalBinary
 //@   assigns $heap
+//@   ensures $elems - old($elems) <= len(data)                          #C05
 
 // ---------------------------------------------------------------- rendering (C19)
 // Representation invariant of Connect: specConnectOK(p.flags, p.will).
